@@ -8,14 +8,15 @@
 //!
 //! case lines
 //!   `det run f:<0|1|2> exc:<0|1> lim:<n>.<seed> alias:<0..4> mods:<path>=<ok|nf|pe>[@<g>],.. thr:<m.m.m;m.m;..>
-//!            sched:<d.d.d|d.d.d|..> runs:<N> x:<subset of BRT> rs:<seed> evil:<0|1|2>`
+//!            sched:<d.d.d|d.d.d|..> runs:<N> x:<subset of BRT> rs:<seed> evil:<0|1|2> [cpu:<arm64|amd64|arm|x86|mips|mips64|arm64old|ppc|ppc64|sparc>]`
 //!       f       ProcessorOptions: 0 default, 1 stable_all, 2 unstable_all
 //!       exc     add an exception stream (SIGSEGV on the first thread)
 //!       lim     `/proc/<pid>/limits` stream with n limit lines (names/values from the seed); 0: none
-//!       alias   STACK CFI flavour of the modules that have symbols: 0 `x29:` only; 1 `fp:` and
-//!               `x29:` (aliases of one register) with different rules; 2 `fp:` + `x29: .undef`;
-//!               3 like 1 plus a delta record overriding `fp:`; 4: an AMD64 dump instead (`$rbp:` … labels,
-//!               no register aliases on that architecture; code bytes at the crashing instruction)
+//!       alias   STACK CFI flavour of the modules that have symbols (see `cfi_text`): 0 every register once;
+//!               1 every alias pair of the CPU under both spellings with different rules; 2 one spelling
+//!               `.undef`; 3 like 1 plus a delta record overriding one spelling; 4 (legacy) flavour 0 on AMD64;
+//!               5 like 1 with `$` prefixes and duplicate `$x:` / `x:` occurrences
+//!       cpu     CPU of the dump (absent: arm64, or amd64 for flavour 4)
 //!       mods    module list (ARM64 Linux dump); path = code_file; what the supplier answers; `@g`: the
 //!               module carries the PDB70 CodeView record and timestamp of group g (modules of one
 //!               group share debug file, debug id and code id but not the code file)
@@ -31,10 +32,14 @@
 //!   `det file d:<testdata dump> f:<0|1|2> k:<max suspensions> runs:<N> x:<subset of BRT> rs:<seed>`
 //!       a dump of the repository's testdata with the repository's symbol directory behind the same
 //!       gates (oracle only, no model)
-//!   `det cfi init:<r=v+|r=v-,..|-> rules:<hexlabel>=<v|->,..|-> sh:<seed>`
-//!       direct call of `walk_with_stack_cfi` (exported by the `fuzz` feature) with a twin of
-//!       `CfiStackWalker` built on the real `CONTEXT_ARM64`; the rules are rendered into INIT and
-//!       delta records in an order chosen by `sh`; init = caller registers forwarded from the callee
+//!   `det cfi [cpu:<X86|AMD64|ARM|ARM64_OLD|ARM64|PPC|PPC64|MIPS|SPARC>] init:<r=v+|r=v-,..|-> rules:<hexlabel>=<v|->,..|-> sh:<seed>`
+//!       direct call of `walk_with_stack_cfi` (exported by the `fuzz` feature) with a generic twin of
+//!       `CfiStackWalker<C>` built on the real context type (no `cpu:` = ARM64); the rules are rendered into
+//!       INIT and delta records in an order chosen by `sh`; init = caller registers forwarded from the
+//!       callee (r = position in `C::REGISTERS`)
+//!   `det mix a:<cpu> b:<cpu> seq:<digits 0-7> rs:<seed>`
+//!       two dumps processed once each, then printed alternately (digit = 4 * which dump + printer) on one
+//!       thread and as tasks of the multi-thread runtime; every output must equal the same print on a fresh thread
 
 use crate::common::*;
 use async_trait::async_trait;
@@ -43,7 +48,7 @@ use breakpad_symbols::{
     CfiRules, FileError, FileKind, FrameWalker, LocateSymbolsResult, Module, SymbolError, SymbolFile,
     SymbolSupplier,
 };
-use minidump::format::CONTEXT_ARM64;
+use minidump::format as md;
 use minidump::{CpuContext, Minidump, MinidumpContextValidity};
 use minidump_processor::{Limit, ProcessState, ProcessorOptions};
 use minidump_synth as synth;
@@ -86,6 +91,8 @@ struct RunCase {
     lim_n: u32,
     lim_seed: u64,
     alias: u32,
+    /// CPU of the dump: arm64 amd64 arm x86 mips mips64 arm64old ppc ppc64 sparc
+    cpu: String,
     mods: Vec<(String, Res)>,
     /// per module: CodeView group — modules of one group carry the same PDB70 record (debug file,
     /// debug id) and the same timestamp (hence code id) although their code files differ
@@ -102,6 +109,8 @@ struct RunCase {
 
 #[derive(Clone, Debug)]
 struct CfiCase {
+    /// name of the context type as in `MdModel.Gen.Regs.Ctx` (X86, AMD64, ARM, ARM64_OLD, ARM64, PPC, PPC64, MIPS, SPARC)
+    cpu: String,
     init: Vec<(u32, u64, bool)>,
     rules: Vec<(String, Option<u64>)>,
     sh: u64,
@@ -119,7 +128,19 @@ struct FileCase {
     rs: u64,
 }
 
+/// two dumps of (usually) different pointer widths, processed once each, then PRINTED alternately:
+/// on fresh threads (base), one after the other on ONE thread, and as tasks of the multi-thread runtime
+#[derive(Clone, Debug)]
+struct MixCase {
+    a: String,
+    b: String,
+    /// the prints, in order: digit = 4 * (0: state a, 1: state b) + printer (0 json, 1 pretty json, 2 text, 3 brief)
+    seq: Vec<u8>,
+    rs: u64,
+}
+
 enum Case {
+    Mix(MixCase),
     Run(RunCase),
     Cfi(CfiCase),
     File(FileCase),
@@ -136,7 +157,7 @@ fn parse_case(case: &str) -> Option<Case> {
     }
     match f[1] {
         "run" => {
-            if f.len() != 13 {
+            if f.len() != 13 && f.len() != 14 {
                 return None;
             }
             let feat: u32 = field(f[2], "f:")?.parse().ok()?;
@@ -190,15 +211,22 @@ fn parse_case(case: &str) -> Option<Case> {
             }
             let rs: u64 = field(f[11], "rs:")?.parse().ok()?;
             let evil: u32 = field(f[12], "evil:")?.parse().ok()?;
-            if feat > 2 || alias > 4 || evil > 2 || mods.len() > 64 || thr.len() > 200 || sched.is_empty() || runs == 0 {
+            if feat > 2 || alias > 5 || evil > 2 || mods.len() > 64 || thr.len() > 200 || sched.is_empty() || runs == 0 {
                 return None;
             }
+            // optional last field (older corpus lines: ARM64, or AMD64 for flavour 4)
+            let cpu = match f.get(13) {
+                Some(x) => field(x, "cpu:")?.to_string(),
+                None => if alias == 4 { "amd64" } else { "arm64" }.to_string(),
+            };
+            cpu_spec(&cpu)?;
             Some(Case::Run(RunCase {
                 feat,
                 exc,
                 lim_n: n.parse().ok()?,
                 lim_seed: s.parse().ok()?,
                 alias,
+                cpu,
                 mods,
                 cv,
                 thr,
@@ -208,6 +236,20 @@ fn parse_case(case: &str) -> Option<Case> {
                 rs,
                 evil,
             }))
+        }
+        "mix" => {
+            if f.len() != 6 {
+                return None;
+            }
+            let a = field(f[2], "a:")?.to_string();
+            let b = field(f[3], "b:")?.to_string();
+            cpu_spec(&a)?;
+            cpu_spec(&b)?;
+            let seq: Vec<u8> = field(f[4], "seq:")?.chars().map(|c| c.to_digit(8).map(|d| d as u8)).collect::<Option<_>>()?;
+            if seq.is_empty() || seq.len() > 64 {
+                return None;
+            }
+            Some(Case::Mix(MixCase { a, b, seq, rs: field(f[5], "rs:")?.parse().ok()? }))
         }
         "file" => {
             if f.len() != 8 {
@@ -232,9 +274,15 @@ fn parse_case(case: &str) -> Option<Case> {
             }))
         }
         "cfi" => {
+            // `cpu:` is optional (older corpus lines: ARM64)
+            let (cpu, f) = match f.get(2).and_then(|x| field(x, "cpu:")) {
+                Some(cpu) => (cpu.to_string(), [&f[..2], &f[3..]].concat()),
+                None => ("ARM64".to_string(), f.clone()),
+            };
             if f.len() != 5 {
                 return None;
             }
+            let nregs = cfi_registers(&cpu)?.len() as u32;
             let mut init = vec![];
             let i = field(f[2], "init:")?;
             if i != "-" {
@@ -246,7 +294,7 @@ fn parse_case(case: &str) -> Option<Case> {
                         _ => return None,
                     };
                     let r: u32 = r.parse().ok()?;
-                    if r > 32 {
+                    if r >= nregs {
                         return None;
                     }
                     init.push((r, v[..v.len() - 1].parse().ok()?, valid));
@@ -275,7 +323,7 @@ fn parse_case(case: &str) -> Option<Case> {
             if labels.len() != rules.len() {
                 return None;
             }
-            Some(Case::Cfi(CfiCase { init, rules, sh: field(f[4], "sh:")?.parse().ok()? }))
+            Some(Case::Cfi(CfiCase { cpu, init, rules, sh: field(f[4], "sh:")?.parse().ok()? }))
         }
         _ => None,
     }
@@ -283,7 +331,7 @@ fn parse_case(case: &str) -> Option<Case> {
 
 fn render_run(c: &RunCase) -> String {
     format!(
-        "det run f:{} exc:{} lim:{}.{} alias:{} mods:{} thr:{} sched:{} runs:{} x:{} rs:{} evil:{}",
+        "det run f:{} exc:{} lim:{}.{} alias:{} mods:{} thr:{} sched:{} runs:{} x:{} rs:{} evil:{} cpu:{}",
         c.feat,
         c.exc as u32,
         c.lim_n,
@@ -308,8 +356,13 @@ fn render_run(c: &RunCase) -> String {
         c.runs,
         c.execs,
         c.rs,
-        c.evil
+        c.evil,
+        c.cpu
     )
+}
+
+fn render_mix(c: &MixCase) -> String {
+    format!("det mix a:{} b:{} seq:{} rs:{}", c.a, c.b, c.seq.iter().map(|d| d.to_string()).collect::<String>(), c.rs)
 }
 
 const FILE_DUMPS: &[&str] = &["test.dmp", "linux-mini.dmp", "simple-crashpad.dmp", "pipeline-inlines-macos-segv.dmp", "invalid-parameter.dmp"];
@@ -333,7 +386,7 @@ fn render_cfi(c: &CfiCase) -> String {
             .collect::<Vec<_>>()
             .join(",")
     };
-    format!("det cfi init:{init} rules:{rules} sh:{}", c.sh)
+    format!("det cfi cpu:{} init:{init} rules:{rules} sh:{}", c.cpu, c.sh)
 }
 
 // ------------------------------------------------------------------------- the (dump, symbols) pair
@@ -404,6 +457,135 @@ fn tid(t: usize) -> u32 {
     1000 + 7 * t as u32
 }
 
+/// what the generator needs to know about a CPU
+struct CpuSpec {
+    /// `MINIDUMP_SYSTEM_INFO.processor_architecture`
+    arch: u16,
+    /// bytes per stack slot / register (the size `CfiStackWalker` reads with `^`)
+    word: u64,
+    /// architecture string of the MODULE line
+    sym_arch: &'static str,
+}
+
+fn cpu_spec(cpu: &str) -> Option<CpuSpec> {
+    let (arch, word, sym_arch) = match cpu {
+        "x86" => (0, 4, "x86"),
+        "mips" => (1, 4, "mips"),
+        "ppc" => (3, 4, "ppc"),
+        "arm" => (5, 4, "arm"),
+        "amd64" => (9, 8, "x86_64"),
+        "arm64" => (12, 8, "arm64"),
+        "sparc" => (0x8001, 4, "sparc"),
+        "ppc64" => (0x8002, 8, "ppc64"),
+        "arm64old" => (0x8003, 8, "arm64"),
+        // (no context reader for this architecture number: threads without context)
+        "mips64" => (0x8004, 8, "mips64"),
+        _ => return None,
+    };
+    Some(CpuSpec { arch, word, sym_arch })
+}
+
+const RUN_CPUS: &[&str] = &["arm64", "amd64", "arm", "x86", "mips", "mips64", "arm64old", "ppc", "ppc64", "sparc"];
+
+/// STACK CFI records of one module for the dump's CPU. Every frame of the generated stacks is four
+/// slots of `word` bytes below the CFA: a saved register, an alternative frame-pointer slot, the
+/// canonical frame-pointer slot, the return address. Flavours (`alias:`):
+///   0 every register named once; 1 every alias pair the CPU's `memoize_register` knows named under
+///   BOTH spellings with different rules (where the CPU has none: the `$`-prefixed and the plain
+///   spelling, which are ONE key of the rule map — the later text wins); 2 one spelling `.undef`;
+///   3 like 1 plus a delta record overriding one spelling; 4 (legacy) = 0 on AMD64;
+///   5 like 1 with `$` prefixes sprinkled over labels and duplicate `$x:` / `x:` occurrences.
+/// On the unchanged tree the spelling that sorts LAST carries the value the chain needs.
+fn cfi_text(cpu: &str, flavour: u32) -> String {
+    let w = cpu_spec(cpu).map(|s| s.word as i64).unwrap_or(8);
+    let (w4, w3, w2) = (4 * w, 3 * w, 2 * w);
+    let fl = if flavour == 4 { 0 } else { flavour };
+    let both = fl == 1 || fl == 3 || fl == 5;
+    let mut s = String::new();
+    match cpu {
+        "amd64" => {
+            let rbp = match fl {
+                0 => "$rbp: .cfa -16 + ^".to_string(),
+                2 => "$rbp: .cfa -24 + ^ rbp: .undef".to_string(),
+                _ => "rbp: .cfa -24 + ^ $rbp: .cfa -16 + ^".to_string(),
+            };
+            s.push_str(&format!("STACK CFI INIT 1000 7000 .cfa: $rsp 32 + $r12: $rbx 1 + {rbp} .ra: .cfa -8 + ^ $rbx: .cfa -32 + ^ $r14: .cfa $r13: .undef\n"));
+            if fl == 3 || fl == 5 {
+                s.push_str("STACK CFI 1400 rbp: .cfa -32 + ^ $rbp: .cfa -16 + ^ r15: 77\n");
+            }
+            s.push_str("STACK CFI 2000 $r15: .cfa 8 - $r14: 5\n");
+        }
+        "x86" => {
+            let ebp = match fl {
+                0 => "$ebp: .cfa -8 + ^".to_string(),
+                2 => "$ebp: .cfa -12 + ^ ebp: .undef".to_string(),
+                _ => "ebp: .cfa -12 + ^ $ebp: .cfa -8 + ^".to_string(),
+            };
+            s.push_str(&format!("STACK CFI INIT 1000 7000 .cfa: $esp 16 + $esi: $ebx 1 + {ebp} .ra: .cfa -4 + ^ $ebx: .cfa -16 + ^ $edi: .undef\n"));
+            if fl == 3 || fl == 5 {
+                s.push_str("STACK CFI 1400 ebp: .cfa -16 + ^ $ebp: .cfa -8 + ^ $eax: 77\n");
+            }
+            s.push_str("STACK CFI 2000 $ecx: .cfa 8 - edi: 5\n");
+        }
+        "mips" | "mips64" => {
+            let d = if fl == 5 { "$" } else { "" };
+            let fp = match fl {
+                0 => format!("fp: .cfa -{w2} + ^"),
+                2 => format!("fp: .cfa -{w3} + ^ $fp: .undef"),
+                _ => format!("$fp: .cfa -{w3} + ^ fp: .cfa -{w2} + ^"),
+            };
+            s.push_str(&format!("STACK CFI INIT 1000 7000 .cfa: {d}sp {w4} + s1: {d}s0 1 + {fp} .ra: .cfa -{w} + ^ {d}s0: .cfa -{w4} + ^ s2: .cfa s3: .undef\n"));
+            if fl == 3 || fl == 5 {
+                s.push_str(&format!("STACK CFI 1400 $fp: .cfa -{w4} + ^ fp: .cfa -{w2} + ^ s4: 77\n"));
+            }
+            s.push_str("STACK CFI 2000 s5: .cfa 8 - $s2: 5\n");
+        }
+        "arm" => {
+            // "fp" < "r11", "lr" < "r14", "pc" < "r15", "r13" < "sp": the second of each wins
+            let d = if fl == 5 { "$" } else { "" };
+            let fp = match fl {
+                0 => format!("r11: .cfa -{w2} + ^"),
+                2 => format!("r11: .undef fp: .cfa -{w3} + ^"),
+                _ => format!("r11: .cfa -{w2} + ^ {d}fp: .cfa -{w3} + ^"),
+            };
+            let more = if both {
+                format!(" sp: .cfa r13: .cfa 64 + {d}lr: 4660 r14: 22136 r15: .cfa -{w} + ^ pc: 74565")
+            } else {
+                String::new()
+            };
+            s.push_str(&format!("STACK CFI INIT 1000 7000 .cfa: sp {w4} + r5: {d}r4 1 + {fp} .ra: .cfa -{w} + ^ r4: .cfa -{w4} + ^ r6: .cfa r7: .undef{more}\n"));
+            if fl == 3 || fl == 5 {
+                s.push_str(&format!("STACK CFI 1400 fp: .cfa -{w4} + ^ r8: 77 $r14: 4369 lr: 8738\n"));
+            }
+            if fl == 5 {
+                s.push_str(&format!("STACK CFI 1800 $r11: .cfa -{w2} + ^ r11: .cfa -{w2} + ^ $fp: 7 fp: .cfa -{w3} + ^\n"));
+            }
+            s.push_str("STACK CFI 2000 r9: .cfa 8 - r6: 5\n");
+        }
+        // arm64, arm64old — and the CPUs without an unwinder (the records are never evaluated)
+        _ => {
+            // "fp" < "x29", "lr" < "x30": the second of each wins
+            let d = if fl == 5 { "$" } else { "" };
+            let x29 = match fl {
+                2 => "x29: .undef".to_string(),
+                _ => "x29: .cfa -16 + ^".to_string(),
+            };
+            let fp = if fl >= 1 { format!(" {d}fp: .cfa -24 + ^") } else { String::new() };
+            let more = if fl == 5 { " lr: 4660 x30: 22136 $x19: 1 x19: .cfa -32 + ^" } else { "" };
+            // the labels are deliberately not in name order, and x19..x22 make the rule map big enough
+            // for its hash order to vary
+            s.push_str(&format!(
+                "STACK CFI INIT 1000 7000 .cfa: sp 32 + x21: x19 1 + {x29} .ra: .cfa -8 + ^ x19: .cfa -32 + ^{fp} x20: .cfa x22: .undef{more}\n"
+            ));
+            if fl == 3 || fl == 5 {
+                s.push_str("STACK CFI 1400 fp: .cfa -32 + ^ x23: 77\n");
+            }
+            s.push_str("STACK CFI 2000 x24: .cfa 8 - x20: 5\n");
+        }
+    }
+    s
+}
+
 fn symbol_text(c: &RunCase, i: usize) -> String {
     let leaf = leaf_of(&c.mods[i].0);
     // modules of one CodeView group are copies of one binary: same symbol file (up to the MODULE line's name)
@@ -411,7 +593,8 @@ fn symbol_text(c: &RunCase, i: usize) -> String {
         Some(g) => 100 + g as usize,
         None => i,
     };
-    let mut s = format!("MODULE Linux arm64 {:032X}0 {leaf}\n", 0xabcd_0000u64 + i as u64);
+    let arch = cpu_spec(&c.cpu).map(|s| s.sym_arch).unwrap_or("arm64");
+    let mut s = format!("MODULE Linux {arch} {:032X}0 {leaf}\n", 0xabcd_0000u64 + i as u64);
     s.push_str(&format!("FILE 0 src/m{i}.c\nFILE 1 src/inl{i}.h\n"));
     s.push_str(&format!("INLINE_ORIGIN 0 inlined_{i}\n"));
     for k in 0..14u64 {
@@ -423,31 +606,125 @@ fn symbol_text(c: &RunCase, i: usize) -> String {
         s.push_str(&format!("{a:x} 100 {} 0\n{:x} 100 {} 0\n", 10 + k, a + 0x100, 20 + k));
     }
     s.push_str(&format!("PUBLIC 8000 0 pub{i}\n"));
-    if c.alias == 4 {
-        s = s.replace("MODULE Linux arm64", "MODULE Linux x86_64");
-        s.push_str("STACK CFI INIT 1000 7000 .cfa: $rsp 32 + $r12: $rbx 1 + $rbp: .cfa -16 + ^ .ra: .cfa -8 + ^ $rbx: .cfa -32 + ^ $r14: .cfa $r13: .undef\n");
-        s.push_str("STACK CFI 2000 $r15: .cfa 8 - $r14: 5\n");
-        return s;
-    }
-    let x29 = match c.alias {
-        2 => "x29: .undef".to_string(),
-        _ => "x29: .cfa -16 + ^".to_string(),
-    };
-    let fp = if c.alias >= 1 { " fp: .cfa -24 + ^" } else { "" };
-    // the labels are deliberately not in name order, and x19..x22 make the rule map big enough for
-    // its hash order to vary
-    s.push_str(&format!(
-        "STACK CFI INIT 1000 7000 .cfa: sp 32 + x21: x19 1 + {x29} .ra: .cfa -8 + ^ x19: .cfa -32 + ^{fp} x20: .cfa x22: .undef\n"
-    ));
-    if c.alias == 3 {
-        s.push_str("STACK CFI 1400 fp: .cfa -32 + ^ x23: 77\n");
-    }
-    s.push_str("STACK CFI 2000 x24: .cfa 8 - x20: 5\n");
+    s.push_str(&cfi_text(&c.cpu, c.alias));
     s
 }
 
 fn leaf_of(path: &str) -> &str {
     path.rsplit(['/', '\\']).next().unwrap_or(path)
+}
+
+/// thread context of the dump's CPU: instruction pointer, stack pointer, frame pointer and
+/// per-thread values in the callee-saved registers the CFI records mention
+fn ctx_section(cpu: &str, pc: u64, sp: u64, fp: u64, t: usize) -> Section {
+    use scroll::ctx::SizeWith;
+    use scroll::{Pread, Pwrite};
+    macro_rules! ctx {
+        ($ty:ty, |$c:ident| $body:block) => {{
+            let n = <$ty>::size_with(&scroll::LE);
+            let mut bytes = vec![0u8; n];
+            let mut $c: $ty = bytes.pread_with(0, scroll::LE).expect("context pread");
+            $body
+            bytes.pwrite_with($c, 0, scroll::LE).expect("context pwrite");
+            Section::with_endian(LE).append_bytes(&bytes)
+        }};
+    }
+    let t = t as u64;
+    match cpu {
+        "x86" => ctx!(md::CONTEXT_X86, |c| {
+            c.context_flags = 0x1003f;
+            c.eip = pc as u32;
+            c.esp = sp as u32;
+            c.ebp = fp as u32;
+            c.ebx = (0x10 + t) as u32;
+            c.esi = (0x1200 + t) as u32;
+            c.edi = (0x1210 + t) as u32;
+            c.eax = 1;
+            c.ecx = 2;
+            c.edx = 3;
+        }),
+        "amd64" => ctx!(md::CONTEXT_AMD64, |c| {
+            c.context_flags = 0x10001f;
+            c.rax = 1;
+            c.rcx = 2;
+            c.rdx = 3;
+            c.rbx = 0x10 + t;
+            c.rsp = sp;
+            c.rbp = fp;
+            c.rsi = 0x1200 + t;
+            c.rdi = 0x1210 + t;
+            c.r8 = 0x1220 + t;
+            c.r9 = 0x1230 + t;
+            c.r10 = 0x1240 + t;
+            c.r11 = 0x1250 + t;
+            c.r12 = 0x1260 + t;
+            c.r13 = 0x1270 + t;
+            c.r14 = 0x1280 + t;
+            c.r15 = 0x1290 + t;
+            c.rip = pc;
+        }),
+        "arm" => ctx!(md::CONTEXT_ARM, |c| {
+            c.context_flags = 0x40000007;
+            for r in 0..16u32 {
+                c.iregs[r as usize] = if (4..=10).contains(&r) { 0x1900 + r * 0x10 + t as u32 } else { r + 1 };
+            }
+            c.iregs[11] = fp as u32;
+            c.iregs[13] = sp as u32;
+            c.iregs[14] = 0;
+            c.iregs[15] = pc as u32;
+        }),
+        "arm64old" => ctx!(md::CONTEXT_ARM64_OLD, |c| {
+            c.context_flags = 0x80000006;
+            for r in 0..31u64 {
+                c.iregs[r as usize] = match r {
+                    29 => fp,
+                    30 => 0,
+                    19..=28 => 0x1900 + r * 0x10 + t,
+                    _ => r + 1,
+                };
+            }
+            c.sp = sp;
+            c.pc = pc;
+        }),
+        "mips" | "mips64" => ctx!(md::CONTEXT_MIPS, |c| {
+            c.context_flags = if cpu == "mips" { 0x40007 } else { 0x80007 };
+            for r in 0..32u64 {
+                c.iregs[r as usize] = if (16..=23).contains(&r) { 0x1900 + r * 0x10 + t } else { r + 1 };
+            }
+            c.iregs[29] = sp;
+            c.iregs[30] = fp;
+            c.iregs[31] = 0;
+            c.epc = pc;
+        }),
+        "ppc" => ctx!(md::CONTEXT_PPC, |c| {
+            c.context_flags = 0x20000003;
+            c.srr0 = pc as u32;
+            for r in 0..32u32 {
+                c.gpr[r as usize] = 0x100 + r + t as u32;
+            }
+            c.gpr[1] = sp as u32;
+            c.lr = 0x1234;
+        }),
+        "ppc64" => ctx!(md::CONTEXT_PPC64, |c| {
+            c.context_flags = 0x01000003;
+            c.srr0 = pc;
+            for r in 0..32u64 {
+                c.gpr[r as usize] = 0x100 + r + t;
+            }
+            c.gpr[1] = sp;
+            c.lr = 0x1234;
+        }),
+        "sparc" => ctx!(md::CONTEXT_SPARC, |c| {
+            c.context_flags = 0x10000003;
+            c.pc = pc;
+            c.npc = pc + 4;
+            for r in 0..32u64 {
+                c.g_r[r as usize] = 0x100 + r + t;
+            }
+            c.g_r[14] = sp;
+        }),
+        _ => arm64_ctx(pc, sp, fp, t as usize),
+    }
 }
 
 fn arm64_ctx(pc: u64, sp: u64, fp: u64, t: usize) -> Section {
@@ -467,30 +744,12 @@ fn arm64_ctx(pc: u64, sp: u64, fp: u64, t: usize) -> Section {
     s
 }
 
-fn amd64_ctx(rip: u64, rsp: u64, rbp: u64, t: usize) -> Section {
-    let mut s = Section::with_endian(LE)
-        .append_repeated(0, 8 * 6)
-        .D32(0x10001f)
-        .D32(0)
-        .append_repeated(0, 2 * 6)
-        .D32(0)
-        .append_repeated(0, 8 * 6);
-    // rax rcx rdx rbx
-    s = s.D64(1).D64(2).D64(3).D64(0x10 + t as u64);
-    s = s.D64(rsp).D64(rbp);
-    // rsi rdi r8..r15
-    for r in 0..10u64 {
-        s = s.D64(0x1200 + r * 0x10 + t as u64);
-    }
-    s = s.D64(rip);
-    s.append_repeated(0, 512).append_repeated(0, 16 * 26).append_repeated(0, 8 * 6)
-}
-
 fn build_dump(c: &RunCase) -> Vec<u8> {
-    let amd64 = c.alias == 4;
-    let mut dump = synth::SynthMinidump::with_endian(LE).add_system_info(
-        synth::SystemInfo::new(LE).set_processor_architecture(if amd64 { 9 } else { 12 }).set_platform_id(0x8201),
-    );
+    let amd64 = c.cpu == "amd64";
+    let spec = cpu_spec(&c.cpu).expect("cpu");
+    let w = spec.word;
+    let mut dump = synth::SynthMinidump::with_endian(LE)
+        .add_system_info(synth::SystemInfo::new(LE).set_processor_architecture(spec.arch).set_platform_id(0x8201));
     for (i, (path, _)) in c.mods.iter().enumerate() {
         let name = synth::DumpString::new(path, LE);
         match c.cv[i] {
@@ -527,26 +786,24 @@ fn build_dump(c: &RunCase) -> Vec<u8> {
             .add_unloaded_module(synth::UnloadedModule::new(LE, UNLOADED_BASE + off, 0x8000, &n, 0x4000_0000 + k as u32, 0))
             .add(n);
     }
+    let slot = |s: Section, v: u64| if w == 4 { s.D32(v as u32) } else { s.D64(v) };
+    // MIPS: the caller's instruction is the return address minus 8 (arm/x86: minus 1..4)
+    let ret_adj = if c.cpu.starts_with("mips") { 12 } else { 4 };
     for (t, chain) in c.thr.iter().enumerate() {
         let base = stack_base(t);
         let depth = chain.len();
         let mut stack = Section::with_endian(LE);
         for j in 0..depth {
-            let cfa = base + 32 * (j as u64 + 1);
-            let ret = if j + 1 < depth { mod_base(chain[j + 1]) + frame_off(j + 1) + 4 } else { UNLOADED_BASE + 0x5000 + 0x10 * (t as u64 % 64) };
-            stack = stack
-                .D64(0x5a00 + (t as u64) * 0x100 + j as u64) // x19 save (cfa-32)
-                .D64(0xA000_0000 + (t as u64) * 0x100 + j as u64) // `fp:` slot (cfa-24)
-                .D64(cfa + 16) // `x29:` slot (cfa-16): the caller's frame record
-                .D64(ret); // return address (cfa-8)
+            let cfa = base + 4 * w * (j as u64 + 1);
+            let ret = if j + 1 < depth { mod_base(chain[j + 1]) + frame_off(j + 1) + ret_adj } else { UNLOADED_BASE + 0x5000 + 0x10 * (t as u64 % 64) };
+            stack = slot(stack, 0x5a00 + (t as u64) * 0x100 + j as u64); // saved register (cfa-4w)
+            stack = slot(stack, 0xA000_0000 + (t as u64) * 0x100 + j as u64); // alternative fp slot (cfa-3w)
+            stack = slot(stack, cfa + 2 * w); // canonical fp slot (cfa-2w): the caller's frame record
+            stack = slot(stack, ret); // return address (cfa-w)
         }
         stack = stack.append_repeated(0, 64);
         let mem = synth::Memory::with_section(stack, base);
-        let ctx = if amd64 {
-            amd64_ctx(mod_base(chain[0]) + frame_off(0), base, base + 16, t)
-        } else {
-            arm64_ctx(mod_base(chain[0]) + frame_off(0), base, base + 16, t)
-        };
+        let ctx = ctx_section(&c.cpu, mod_base(chain[0]) + frame_off(0), base, base + 2 * w, t);
         let thread = synth::Thread::new(LE, tid(t), &mem, &ctx);
         dump = dump.add_thread(thread).add(ctx).add_memory(mem);
         if t % 2 == 0 {
@@ -561,11 +818,45 @@ fn build_dump(c: &RunCase) -> Vec<u8> {
         .set_linux_proc_status(b"Name:\tverif\nPid:\t4242\n")
         .set_linux_lsb_release(b"DISTRIB_ID=Verif\nDISTRIB_RELEASE=1.0\nDISTRIB_CODENAME=det\nDISTRIB_DESCRIPTION=\"Verif 1.0\"\n")
         .set_linux_cpu_info(b"processor\t: 0\nmicrocode\t: 0x1e\n");
-    if amd64 {
-        // code at the first thread's instruction pointer: `mov rax, [rbx]` then nops (crash analysis
-        // disassembles it), and the process memory map
-        let code = Section::with_endian(LE).append_bytes(&[0x48, 0x8b, 0x03]).append_repeated(0x90, 29);
-        dump = dump.add_memory(synth::Memory::with_section(code, mod_base(c.thr[0][0]) + frame_off(0)));
+    // Crashpad annotations (global, per module: list / simple / typed objects; the keys deliberately
+    // not in name order) — shown by the raw stream dump
+    {
+        let mut cp = synth::CrashpadInfo::new(LE)
+            .add_simple_annotation("zeta", "last")
+            .add_simple_annotation("channel", "verif")
+            .add_simple_annotation("alpha", "first")
+            .add_simple_annotation("ptype", "det");
+        for i in 0..c.mods.len().min(3) {
+            cp = cp.add_module(
+                synth::ModuleCrashpadInfo::new(i as u32, LE)
+                    .add_list_annotation("list-b")
+                    .add_list_annotation("list-a")
+                    .add_simple_annotation("mod-z", "1")
+                    .add_simple_annotation("mod-a", "2")
+                    .add_annotation_object("obj-y", synth::AnnotationValue::String("why".into()))
+                    .add_annotation_object("obj-b", synth::AnnotationValue::Custom(0x8001, vec![1, 2, 3, i as u8]))
+                    .add_annotation_object("obj-k", synth::AnnotationValue::Invalid),
+            );
+        }
+        dump = dump.add_crashpad_info(cp);
+    }
+    if c.lim_seed % 3 == 0 {
+        // a MemoryInfoList as well (regions of the modules and stacks)
+        for (i, _) in c.mods.iter().enumerate() {
+            dump = dump.add_memory_info(synth::MemoryInfo::new(LE, mod_base(i), mod_base(i), 0x20, MOD_SIZE as u64, 0x1000, 0x20, 0x100_0000));
+        }
+        for t in 0..c.thr.len() {
+            dump = dump.add_memory_info(synth::MemoryInfo::new(LE, stack_base(t), stack_base(t), 0x04, 0x1000, 0x1000, 0x04, 0x2_0000));
+        }
+    }
+    {
+        if amd64 || c.cpu == "x86" {
+            // code at the first thread's instruction pointer: `mov rax, [rbx]` / `dec eax; mov eax, [ebx]`
+            // then nops (crash analysis disassembles it)
+            let code = Section::with_endian(LE).append_bytes(&[0x48, 0x8b, 0x03]).append_repeated(0x90, 29);
+            dump = dump.add_memory(synth::Memory::with_section(code, mod_base(c.thr[0][0]) + frame_off(0)));
+        }
+        // the process memory map
         let mut maps = String::new();
         for (i, (path, _)) in c.mods.iter().enumerate() {
             maps.push_str(&format!("{:x}-{:x} r-xp 00000000 08:01 {} {}\n", mod_base(i), mod_base(i) + MOD_SIZE as u64, 100 + i, path));
@@ -825,8 +1116,9 @@ fn tokio_rt() -> &'static tokio::runtime::Runtime {
 
 #[derive(Default)]
 struct RunOut {
-    /// print_json(false), print_json(true), print, print_brief
-    bytes: [Vec<u8>; 4],
+    /// print_json(false), print_json(true), print, print_brief, summary of the pending-stats
+    /// reporter (empty when the run had none), raw `--dump` style output of the streams
+    bytes: [Vec<u8>; 6],
     done: Vec<usize>,
     started: Vec<usize>,
     err: Option<String>,
@@ -834,6 +1126,13 @@ struct RunOut {
 }
 
 fn run_once(bytes: &[u8], c: &RunCase, text: &Arc<Vec<String>>, evil: Option<&std::path::Path>, delays: &[u32], exec: char, seed: u64, keep_state: bool) -> RunOut {
+    run_once_r(bytes, c, text, evil, delays, exec, seed, keep_state, true)
+}
+
+/// `reporter`: process with a `PendingProcessorStats` subscribed to everything (as the interactive
+/// minidump-stackwalk does)
+#[allow(clippy::too_many_arguments)]
+fn run_once_r(bytes: &[u8], c: &RunCase, text: &Arc<Vec<String>>, evil: Option<&std::path::Path>, delays: &[u32], exec: char, seed: u64, keep_state: bool, reporter: bool) -> RunOut {
     let mut out = RunOut::default();
     let dump = match Minidump::read(bytes) {
         Ok(d) => d,
@@ -865,6 +1164,15 @@ fn run_once(bytes: &[u8], c: &RunCase, text: &Arc<Vec<String>>, evil: Option<&st
         _ => ProcessorOptions::unstable_all(),
     };
     options.evil_json = evil;
+    let mut subs = minidump_processor::PendingProcessorStatSubscriptions::default();
+    subs.thread_count = true;
+    subs.frame_count = true;
+    subs.unwalked_result = true;
+    subs.live_frames = true;
+    let stats = minidump_processor::PendingProcessorStats::new(subs);
+    if reporter {
+        options.stat_reporter = Some(&stats);
+    }
     let fut = minidump_processor::process_minidump_with_options(&dump, &provider, options);
     let state = match exec {
         'R' => {
@@ -876,6 +1184,10 @@ fn run_once(bytes: &[u8], c: &RunCase, text: &Arc<Vec<String>>, evil: Option<&st
             .map_err(|_| "no completion within 20 s (executor T)".to_string()),
         _ => block_on_simple(fut),
     };
+    if reporter {
+        out.bytes[4] = pending_summary(&stats);
+    }
+    out.bytes[5] = raw_dump_text(&dump);
     out.started = started.lock().unwrap().clone();
     out.done = done.lock().unwrap().clone();
     let state = match state {
@@ -968,6 +1280,7 @@ fn run_file_once(bytes: &[u8], c: &FileCase, sched_seed: u64, exec: char, seed: 
     let _ = state.print_json(&mut out.bytes[1], true).map_err(|e| out.err = Some(format!("print_json(pretty): {e}")));
     let _ = state.print(&mut out.bytes[2]).map_err(|e| out.err = Some(format!("print: {e}")));
     let _ = state.print_brief(&mut out.bytes[3]).map_err(|e| out.err = Some(format!("print_brief: {e}")));
+    out.bytes[5] = raw_dump_text(&dump);
     (out, done)
 }
 
@@ -996,6 +1309,9 @@ fn exec_file(c: &FileCase) -> ImplResult {
         if let Some(i) = (2..4).find(|i| base.bytes[*i] != o.bytes[*i]) {
             oracle.push((format!("text-differs-across-{kind}"), format!("{what}: {} differs; {}", WHICH[i], first_diff(&base.bytes[i], &o.bytes[i]))));
         }
+        if base.bytes[5] != o.bytes[5] {
+            oracle.push((format!("raw-dump-differs-across-{kind}"), format!("{what}: {}", first_diff(&base.bytes[5], &o.bytes[5]))));
+        }
     };
     for r in 1..c.runs {
         let (o, _) = if r % 2 == 1 {
@@ -1018,7 +1334,7 @@ fn exec_file(c: &FileCase) -> ImplResult {
             diff(&o, if si == 0 { "executors" } else { "schedules" }, &format!("executor {x}, schedule seed +{si}"), &mut res.oracle);
         }
     }
-    for which in ["json", "text"] {
+    for which in ["json", "text", "raw-dump"] {
         if res.oracle.iter().any(|(cl, _)| *cl == format!("{which}-differs-across-runs")) {
             res.oracle.retain(|(cl, _)| *cl != format!("{which}-differs-across-schedules") && *cl != format!("{which}-differs-across-executors"));
         }
@@ -1038,7 +1354,64 @@ fn exec_file(c: &FileCase) -> ImplResult {
 
 // ----------------------------------------------------------------------------------- the oracle
 
-const WHICH: [&str; 4] = ["print_json(false)", "print_json(true)", "print", "print_brief"];
+const WHICH: [&str; 6] = ["print_json(false)", "print_json(true)", "print", "print_brief", "pending-stats summary", "raw stream dump"];
+
+/// what `minidump-stackwalk --dump` prints, through the same public `print` methods
+fn raw_dump_text(dump: &Minidump<'_, &[u8]>) -> Vec<u8> {
+    use minidump::*;
+    let mut out: Vec<u8> = vec![];
+    let _ = dump.print(&mut out);
+    let system_info = dump.get_stream::<MinidumpSystemInfo>().ok();
+    let memory_list = dump.get_stream::<MinidumpMemoryList<'_>>().ok();
+    let misc_info = dump.get_stream::<MinidumpMiscInfo>().ok();
+    let unified = dump.get_stream::<MinidumpMemoryList<'_>>().ok().map(UnifiedMemoryList::Memory);
+    if let Ok(l) = dump.get_stream::<MinidumpThreadList<'_>>() {
+        let _ = l.print(&mut out, unified.as_ref(), system_info.as_ref(), misc_info.as_ref(), false);
+    }
+    if let Ok(l) = dump.get_stream::<MinidumpModuleList>() {
+        let _ = l.print(&mut out);
+    }
+    if let Ok(l) = dump.get_stream::<MinidumpUnloadedModuleList>() {
+        let _ = l.print(&mut out);
+    }
+    if let Some(l) = memory_list {
+        let _ = l.print(&mut out, true);
+    }
+    if let Ok(l) = dump.get_stream::<MinidumpMemoryInfoList<'_>>() {
+        let _ = l.print(&mut out);
+    }
+    if let Ok(e) = dump.get_stream::<MinidumpException>() {
+        let _ = e.print(&mut out, system_info.as_ref(), misc_info.as_ref());
+    }
+    if let Some(si) = system_info {
+        let _ = si.print(&mut out);
+    }
+    if let Ok(n) = dump.get_stream::<MinidumpThreadNames>() {
+        let _ = n.print(&mut out);
+    }
+    if let Ok(c) = dump.get_stream::<MinidumpCrashpadInfo>() {
+        let _ = c.print(&mut out);
+    }
+    out
+}
+
+/// what the pending-stats reporter saw, in a canonical form: counters, the live frames SORTED by
+/// (thread, frame) — they arrive in completion order —, and the JSON of the unwalked state
+fn pending_summary(stats: &minidump_processor::PendingProcessorStats) -> Vec<u8> {
+    let (done, total) = stats.get_thread_count();
+    let frames = stats.get_frame_count();
+    let mut live: Vec<(usize, usize, u64)> = vec![];
+    stats.drain_new_frames(|f| live.push((f.thread_idx, f.frame_idx, f.frame.instruction)));
+    live.sort();
+    let mut out = format!("threads {done}/{total} frames {frames} live {live:?}\nunwalked: ").into_bytes();
+    match stats.take_unwalked_result() {
+        Some(state) => {
+            let _ = state.print_json(&mut out, false);
+        }
+        None => out.extend_from_slice(b"none"),
+    }
+    out
+}
 
 fn first_diff(a: &[u8], b: &[u8]) -> String {
     let n = a.iter().zip(b.iter()).take_while(|(x, y)| x == y).count();
@@ -1180,6 +1553,13 @@ fn compare(c: &RunCase, base: &RunOut, other: &RunOut, kind: &str, what: &str, o
             oracle.push((format!("json-differs-across-{kind}"), detail));
         }
     }
+    // the pending-stats reporter (both runs had one) and the raw stream dump
+    if !base.bytes[4].is_empty() && !other.bytes[4].is_empty() && base.bytes[4] != other.bytes[4] {
+        oracle.push((format!("pending-stats-differ-across-{kind}"), format!("{what}: {}", first_diff(&base.bytes[4], &other.bytes[4]))));
+    }
+    if base.bytes[5] != other.bytes[5] {
+        oracle.push((format!("raw-dump-differs-across-{kind}"), format!("{what}: {}", first_diff(&base.bytes[5], &other.bytes[5]))));
+    }
     if let Some(i) = text_diff {
         let detail = format!("{what}: {} differs; {}", WHICH[i], first_diff(&base.bytes[i], &other.bytes[i]));
         if c.evil == 2 && (2..4).all(|j| mask_text(&base.bytes[j], c) == mask_text(&other.bytes[j], c)) {
@@ -1249,7 +1629,8 @@ fn text_register_names(stack_text: &str, f: usize) -> Vec<String> {
             }
             continue;
         }
-        if cur == f && t.contains(" = 0x") {
+        // (x86 frames may be followed by recovered arguments: `arg 0 (int) = 0x…`)
+        if cur == f && t.contains(" = 0x") && !t.starts_with("arg ") {
             let toks: Vec<&str> = t.split_whitespace().collect();
             for w in toks.windows(3) {
                 if w[1] == "=" && w[2].starts_with("0x") {
@@ -1330,16 +1711,22 @@ fn extract(c: &RunCase, base: &RunOut) -> Result<Extract, String> {
         .map(|t| (t["thread_id"].as_u64().unwrap_or(0) * 1000 + t["frame_count"].as_u64().unwrap_or(0)).to_string())
         .collect();
     // ---- registers of one recovered frame: the validity set in its REAL iteration order
-    let f = 1.min(state.threads[0].frames.len().saturating_sub(1));
-    let frame = &state.threads[0].frames[f];
-    let fixed: Vec<String> = frame.context.general_purpose_registers().iter().map(|r| hex(r.as_bytes())).collect();
-    let valid_in: Vec<String> = match &frame.context.valid {
-        MinidumpContextValidity::All => frame.context.general_purpose_registers().iter().map(|r| hex(r.as_bytes())).collect(),
-        MinidumpContextValidity::Some(set) => set.iter().map(|r| hex(r.as_bytes())).collect(),
+    // (a thread whose context could not be read has no frame at all: nothing to show)
+    let (fixed, valid_in, text_out): (Vec<String>, Vec<String>, Vec<String>) = if state.threads[0].frames.is_empty() {
+        (vec![], vec![], vec![])
+    } else {
+        let f = 1.min(state.threads[0].frames.len().saturating_sub(1));
+        let frame = &state.threads[0].frames[f];
+        let fixed: Vec<String> = frame.context.general_purpose_registers().iter().map(|r| hex(r.as_bytes())).collect();
+        let valid_in: Vec<String> = match &frame.context.valid {
+            MinidumpContextValidity::All => frame.context.general_purpose_registers().iter().map(|r| hex(r.as_bytes())).collect(),
+            MinidumpContextValidity::Some(set) => set.iter().map(|r| hex(r.as_bytes())).collect(),
+        };
+        let mut stack_text = vec![];
+        state.threads[0].print(&mut stack_text).map_err(|e| e.to_string())?;
+        let text_out: Vec<String> = text_register_names(&String::from_utf8_lossy(&stack_text), f).iter().map(|r| hex(r.as_bytes())).collect();
+        (fixed, valid_in, text_out)
     };
-    let mut stack_text = vec![];
-    state.threads[0].print(&mut stack_text).map_err(|e| e.to_string())?;
-    let text_out: Vec<String> = text_register_names(&String::from_utf8_lossy(&stack_text), f).iter().map(|r| hex(r.as_bytes())).collect();
     // ---- JSON registers: only the crashing thread's context frame has them; `json_registers`
     //      builds a HashSet of all register names for a fully valid context — its iteration order
     //      (here: that of an equally built set) is what must not matter
@@ -1412,24 +1799,124 @@ thread_local! {
 
 // ------------------------------------------------------------------------- direct CFI walker
 
-const ARM64_NAMES: [&str; 33] = [
-    "x0", "x1", "x2", "x3", "x4", "x5", "x6", "x7", "x8", "x9", "x10", "x11", "x12", "x13", "x14", "x15", "x16",
-    "x17", "x18", "x19", "x20", "x21", "x22", "x23", "x24", "x25", "x26", "x27", "x28", "fp", "lr", "sp", "pc",
-];
+/// the nine `CpuContext` implementations, by the name `MdModel.Gen.Regs.Ctx` gives them
+const CFI_CPUS: &[&str] = &["X86", "AMD64", "ARM", "ARM64_OLD", "ARM64", "PPC", "PPC64", "MIPS", "SPARC"];
 
-/// twin of `CfiStackWalker<CONTEXT_ARM64>` (minidump-unwind/src/lib.rs:610-660) on the real context type
-struct Twin {
-    caller_ctx: CONTEXT_ARM64,
+/// `$f::<C>($args)` for the context type named `$cpu`
+macro_rules! with_cpu {
+    ($cpu:expr, $f:ident, $($args:expr),*) => {
+        match $cpu {
+            "X86" => Some($f::<md::CONTEXT_X86>($($args),*)),
+            "AMD64" => Some($f::<md::CONTEXT_AMD64>($($args),*)),
+            "ARM" => Some($f::<md::CONTEXT_ARM>($($args),*)),
+            "ARM64_OLD" => Some($f::<md::CONTEXT_ARM64_OLD>($($args),*)),
+            "ARM64" => Some($f::<md::CONTEXT_ARM64>($($args),*)),
+            "PPC" => Some($f::<md::CONTEXT_PPC>($($args),*)),
+            "PPC64" => Some($f::<md::CONTEXT_PPC64>($($args),*)),
+            "MIPS" => Some($f::<md::CONTEXT_MIPS>($($args),*)),
+            "SPARC" => Some($f::<md::CONTEXT_SPARC>($($args),*)),
+            _ => None,
+        }
+    };
+}
+
+/// bounds of `impl FrameWalker for CfiStackWalker<C>` plus a way to make an all-zero context
+trait TwinCtx: CpuContext + Sized {
+    fn zero() -> Self;
+    fn try_reg(v: u64) -> Option<Self::Register>;
+    fn reg_u64(v: Self::Register) -> u64;
+}
+macro_rules! twin_ctx {
+    ($($t:ty),*) => {$(
+        impl TwinCtx for $t {
+            fn zero() -> Self {
+                use scroll::ctx::SizeWith;
+                use scroll::Pread;
+                let bytes = vec![0u8; <$t>::size_with(&scroll::LE)];
+                bytes.pread_with::<$t>(0, scroll::LE).expect("zero context")
+            }
+            fn try_reg(v: u64) -> Option<Self::Register> {
+                <Self as CpuContext>::Register::try_from(v).ok()
+            }
+            fn reg_u64(v: Self::Register) -> u64 {
+                u64::from(v)
+            }
+        }
+    )*};
+}
+twin_ctx!(md::CONTEXT_X86, md::CONTEXT_AMD64, md::CONTEXT_ARM, md::CONTEXT_ARM64_OLD, md::CONTEXT_ARM64, md::CONTEXT_PPC, md::CONTEXT_PPC64, md::CONTEXT_MIPS, md::CONTEXT_SPARC);
+
+fn registers_of<C: TwinCtx>() -> &'static [&'static str] {
+    C::REGISTERS
+}
+/// `REGISTERS` of the context type named `cpu`
+fn cfi_registers(cpu: &str) -> Option<&'static [&'static str]> {
+    with_cpu!(cpu, registers_of,)
+}
+fn memo_of<C: TwinCtx>(name: &str) -> Option<&'static str> {
+    C::zero().memoize_register(name)
+}
+/// the real `memoize_register` of the context type named `cpu`
+fn cfi_memoize(cpu: &str, name: &str) -> Option<&'static str> {
+    with_cpu!(cpu, memo_of, name).flatten()
+}
+fn sp_of<C: TwinCtx>() -> &'static str {
+    C::zero().stack_pointer_register_name()
+}
+
+/// spellings tried on every context type: every `REGISTERS` entry of every CPU, numbered names of
+/// all families, the SPARC window names, a few foreign / misspelt names
+fn label_universe() -> &'static Vec<String> {
+    static U: OnceLock<Vec<String>> = OnceLock::new();
+    U.get_or_init(|| {
+        let mut u: BTreeSet<String> = BTreeSet::new();
+        for cpu in CFI_CPUS {
+            for r in cfi_registers(cpu).unwrap() {
+                u.insert(r.to_string());
+            }
+        }
+        for k in 0..33 {
+            for p in ["r", "x", "g_r", "s", "w"] {
+                u.insert(format!("{p}{k}"));
+            }
+        }
+        for k in 0..9 {
+            for p in ["g", "o", "l", "i"] {
+                u.insert(format!("{p}{k}"));
+            }
+        }
+        for x in ["fp", "sp", "lr", "pc", "ra", "gp", "ip", "bogus", "x07", "X19", "R11", "FP", "fp2", "f", "r011", "eflags", "cpsr", "efl", "ebp2"] {
+            u.insert(x.to_string());
+        }
+        u.into_iter().collect()
+    })
+}
+
+/// groups of >= 2 spellings of the universe that the real `memoize_register` of `cpu` sends to one
+/// canonical name (found by probing the implementation, not read from a table)
+fn alias_groups(cpu: &str) -> Vec<Vec<String>> {
+    let mut g: BTreeMap<&'static str, Vec<String>> = BTreeMap::new();
+    for l in label_universe() {
+        if let Some(c) = cfi_memoize(cpu, l) {
+            g.entry(c).or_default().push(l.clone());
+        }
+    }
+    g.into_values().filter(|v| v.len() >= 2).collect()
+}
+
+/// twin of `CfiStackWalker<C>` (minidump-unwind/src/lib.rs:610-660) on the real context type
+struct Twin<C: TwinCtx> {
+    caller_ctx: C,
     caller_validity: HashSet<&'static str>,
     /// every name ever passed to set/clear, canonicalised (for the output)
-    touched: BTreeSet<u32>,
+    touched: BTreeSet<usize>,
 }
-impl Twin {
-    fn id(name: &str) -> Option<u32> {
-        ARM64_NAMES.iter().position(|n| *n == name).map(|p| p as u32)
+impl<C: TwinCtx> Twin<C> {
+    fn id(name: &str) -> Option<usize> {
+        C::REGISTERS.iter().position(|n| *n == name)
     }
 }
-impl FrameWalker for Twin {
+impl<C: TwinCtx> FrameWalker for Twin<C> {
     fn get_instruction(&self) -> u64 {
         0x1010
     }
@@ -1443,7 +1930,7 @@ impl FrameWalker for Twin {
         None
     }
     fn get_callee_register(&self, name: &str) -> Option<u64> {
-        if name == "sp" {
+        if self.caller_ctx.memoize_register(name) == Some(self.caller_ctx.stack_pointer_register_name()) {
             Some(0x8000)
         } else {
             None
@@ -1451,13 +1938,16 @@ impl FrameWalker for Twin {
     }
     fn set_caller_register(&mut self, name: &str, val: u64) -> Option<()> {
         let memoized = self.caller_ctx.memoize_register(name)?;
-        self.touched.insert(Twin::id(memoized)?);
+        if let Some(i) = Self::id(memoized) {
+            self.touched.insert(i);
+        }
+        let val = C::try_reg(val)?;
         self.caller_validity.insert(memoized);
         self.caller_ctx.set_register(name, val)
     }
     fn clear_caller_register(&mut self, name: &str) {
         if let Some(memoized) = self.caller_ctx.memoize_register(name) {
-            if let Some(i) = Twin::id(memoized) {
+            if let Some(i) = Self::id(memoized) {
                 self.touched.insert(i);
             }
             self.caller_validity.remove(memoized);
@@ -1472,8 +1962,9 @@ impl FrameWalker for Twin {
 }
 
 /// one direct call of `walk_with_stack_cfi`; `sh` chooses how the rule map is spread over the INIT
-/// record and delta records (text order, `$` prefixes, shadowed earlier occurrences, expression forms)
-fn cfi_once(c: &CfiCase, sh: u64) -> (Result<Option<String>, String>, String, bool) {
+/// record and delta records (text order, `$` prefixes, shadowed earlier occurrences — with and
+/// without `$`, in the same or an earlier record —, expression forms)
+fn cfi_once_t<C: TwinCtx>(c: &CfiCase, sh: u64) -> (Result<Option<String>, String>, String, bool) {
     let mut rng = Rng::new(sh);
     let mut order: Vec<usize> = (0..c.rules.len()).collect();
     for i in (1..order.len()).rev() {
@@ -1483,28 +1974,33 @@ fn cfi_once(c: &CfiCase, sh: u64) -> (Result<Option<String>, String>, String, bo
         match v {
             None => (*rng.pick(&[".undef", "nosuchreg", "1 0 /", "+"])).to_string(),
             Some(v) => match rng.below(3) {
-                0 => v.to_string(),
+                0 if *v <= i64::MAX as u64 => v.to_string(),
                 1 => format!("{} {} +", v / 2, v - v / 2),
-                _ => format!(".cfa {} -", 0x9000u64.wrapping_sub(*v)),
+                _ => format!(".cfa {} -", 0x9000u64.wrapping_sub(*v) as i64),
             },
         }
     };
-    let mut init = String::from(".cfa: sp 4096 + .ra: 8192");
+    let other = |v: &Option<u64>| if v.is_some() { ".undef".to_string() } else { "12345".to_string() };
+    let sp = sp_of::<C>();
+    let mut init = format!(".cfa: {}{sp} 4096 + .ra: 8192", if rng.chance(1, 2) { "$" } else { "" });
     let nadd = rng.below(3) as usize;
     let mut adds: Vec<String> = vec![String::new(); nadd];
     for &i in &order {
         let (l, v) = &c.rules[i];
-        let dollar = if rng.chance(1, 5) { "$" } else { "" };
+        let dollar = if rng.chance(1, 4) { "$" } else { "" };
         let slot = rng.below(nadd as u64 + 1) as usize;
         let e = expr(v, &mut rng);
-        if slot == 0 {
-            init.push_str(&format!(" {dollar}{l}: {e}"));
-        } else {
+        let target: &mut String = if slot == 0 { &mut init } else { &mut adds[slot - 1] };
+        // shadowed occurrence EARLIER IN THE SAME record, spelt with the other `$` choice
+        if rng.chance(1, 4) {
+            let d2 = if dollar.is_empty() { "$" } else { "" };
+            target.push_str(&format!(" {d2}{l}: {}", other(v)));
+        }
+        target.push_str(&format!(" {dollar}{l}: {e}"));
+        if slot != 0 && rng.chance(1, 2) {
             // shadowed occurrence in INIT with another outcome
-            if rng.chance(1, 2) {
-                init.push_str(&format!(" {l}: {}", if v.is_some() { ".undef".to_string() } else { "12345".to_string() }));
-            }
-            adds[slot - 1].push_str(&format!(" {dollar}{l}: {e}"));
+            let d3 = if rng.chance(1, 3) { "$" } else { "" };
+            init.push_str(&format!(" {d3}{l}: {}", other(v)));
         }
     }
     let init_rules = CfiRules { address: 0x1000, rules: init };
@@ -1514,16 +2010,18 @@ fn cfi_once(c: &CfiCase, sh: u64) -> (Result<Option<String>, String>, String, bo
         .filter(|(_, a)| !a.is_empty())
         .map(|(k, a)| CfiRules { address: 0x1004 + 4 * k as u64, rules: a.trim().to_string() })
         .collect();
-    let mut tw = Twin { caller_ctx: CONTEXT_ARM64::default(), caller_validity: HashSet::new(), touched: BTreeSet::new() };
+    let mut tw = Twin::<C> { caller_ctx: C::zero(), caller_validity: HashSet::new(), touched: BTreeSet::new() };
     for (r, v, valid) in &c.init {
-        let name = ARM64_NAMES[*r as usize];
-        tw.caller_ctx.set_register(name, *v);
+        let name = C::REGISTERS[*r as usize];
+        if let Some(x) = C::try_reg(*v) {
+            tw.caller_ctx.set_register(name, x);
+        }
         if *valid {
             tw.caller_validity.insert(name);
         } else {
             tw.caller_validity.remove(name);
         }
-        tw.touched.insert(*r);
+        tw.touched.insert(*r as usize);
     }
     let text = format!("INIT `{}` + {:?}", init_rules.rules, additional.iter().map(|a| a.rules.as_str()).collect::<Vec<_>>());
     let r = catch(|| walk_with_stack_cfi(&init_rules, &additional, &mut tw));
@@ -1532,16 +2030,20 @@ fn cfi_once(c: &CfiCase, sh: u64) -> (Result<Option<String>, String>, String, bo
         Ok(None) => Ok(None),
         Ok(Some(())) => {
             let mut shown = vec![];
-            for (i, name) in ARM64_NAMES.iter().enumerate() {
+            for (i, name) in C::REGISTERS.iter().enumerate() {
                 let valid = tw.caller_validity.contains(name);
-                if valid || tw.touched.contains(&(i as u32)) {
-                    shown.push(format!("{i}={}{}", tw.caller_ctx.get_register_always(name), if valid { '+' } else { '-' }));
+                if valid || tw.touched.contains(&i) {
+                    shown.push(format!("{i}={}{}", C::reg_u64(tw.caller_ctx.get_register_always(name)), if valid { '+' } else { '-' }));
                 }
             }
             Ok(Some(format!("regs:{}", shown.join(","))))
         }
     };
     (out, text, !additional.is_empty())
+}
+
+fn cfi_once(c: &CfiCase, sh: u64) -> (Result<Option<String>, String>, String, bool) {
+    with_cpu!(c.cpu.as_str(), cfi_once_t, c, sh).expect("det cfi: unknown cpu")
 }
 
 fn exec_cfi(c: &CfiCase) -> ImplResult {
@@ -1568,28 +2070,184 @@ fn exec_cfi(c: &CfiCase) -> ImplResult {
             let class = if k < 5 { "cfi-registers-differ-across-runs" } else { "cfi-registers-differ-across-renderings" };
             res.oracle.push((
                 class.into(),
-                format!("call #{k}: {:?} but the first call gave {:?}; records: {text2} (first call: {text})", again, first),
+                format!("{} call #{k}: {:?} but the first call gave {:?}; records: {text2} (first call: {text})", c.cpu, again, first),
             ));
             break;
         }
     }
     let additional_nonempty = has_delta;
     // distribution
-    let canon = |l: &str| -> Option<&'static str> { CONTEXT_ARM64::default().memoize_register(l) };
-    let mut targets: Vec<&'static str> = c.rules.iter().filter_map(|(l, _)| canon(l)).collect();
+    let mut targets: Vec<&'static str> = c.rules.iter().filter_map(|(l, _)| cfi_memoize(&c.cpu, l)).collect();
     let n = targets.len();
     targets.sort();
     targets.dedup();
     let aliased = targets.len() < n;
     res.nontrivial = c.rules.len() >= 2;
     res.tags.push("kind:cfi".into());
+    res.tags.push(format!("cfi-cpu:{}", c.cpu));
     res.tags.push(format!("cfi-rules:{}", c.rules.len().min(8)));
     if aliased {
         res.tags.push("cfi-aliased-labels".into());
+        res.tags.push(format!("cfi-aliased-labels:{}", c.cpu));
+    }
+    if c.rules.iter().any(|(_, v)| v.is_some_and(|v| v > u32::MAX as u64)) {
+        res.tags.push("cfi-value-over-32-bits".into());
     }
     if additional_nonempty {
         res.tags.push("cfi-delta-records".into());
     }
+    res
+}
+
+// ----------------------------------------------------------------------------------- exec (mix)
+
+fn mix_run_case(cpu: &str, seed: u64) -> RunCase {
+    RunCase {
+        feat: (seed % 3) as u32,
+        exc: true,
+        lim_n: 3,
+        lim_seed: seed,
+        alias: 1,
+        cpu: cpu.to_string(),
+        mods: vec![("/app/bin/main".to_string(), Res::Ok), ("/usr/lib/libc.so.6".to_string(), Res::Nf)],
+        cv: vec![None, None],
+        thr: vec![vec![0, 1], vec![1, 0, 0]],
+        sched: vec![vec![0, 1]],
+        runs: 1,
+        execs: "B".into(),
+        rs: seed,
+        evil: 0,
+    }
+}
+
+fn print_one(state: &ProcessState, printer: u8) -> Vec<u8> {
+    let mut out = vec![];
+    let _ = match printer {
+        0 => state.print_json(&mut out, false).map_err(|e| e.to_string()),
+        1 => state.print_json(&mut out, true).map_err(|e| e.to_string()),
+        2 => state.print(&mut out).map_err(|e| e.to_string()),
+        _ => state.print_brief(&mut out).map_err(|e| e.to_string()),
+    };
+    out
+}
+
+/// number of characters of the crash address a report shows (10 = 32-bit, 18 = 64-bit formatting)
+fn crash_addr_chars(report: &[u8], printer: u8) -> Option<usize> {
+    let s = String::from_utf8_lossy(report);
+    let key = if printer < 2 { "\"address\":" } else { "Crash address: " };
+    let p = s.find(key)? + key.len();
+    let rest = s[p..].trim_start().trim_start_matches('"');
+    Some(rest.chars().take_while(|c| c.is_ascii_hexdigit() || *c == 'x').count())
+}
+
+fn exec_mix(c: &MixCase) -> ImplResult {
+    let mut res = ImplResult::default();
+    let mut states: Vec<Arc<ProcessState>> = vec![];
+    for (k, cpu) in [&c.a, &c.b].iter().enumerate() {
+        let rc = mix_run_case(cpu, c.rs.wrapping_add(k as u64));
+        let bytes = build_dump(&rc);
+        let text: Arc<Vec<String>> = Arc::new((0..rc.mods.len()).map(|i| symbol_text(&rc, i)).collect());
+        // processed on a fresh thread, so that this worker's own print context stays out of it
+        let o = std::thread::scope(|s| s.spawn(|| run_once(&bytes, &rc, &text, None, &rc.sched[0], 'B', rc.rs, true)).join())
+            .unwrap_or_else(|_| RunOut { err: Some("panic".into()), ..Default::default() });
+        match o.state {
+            Some(st) => states.push(Arc::new(st)),
+            None => {
+                res.out = format!("ERR {:?}", o.err);
+                res.oracle.push(("processing-failed".into(), format!("{cpu}: {:?}", o.err)));
+                return res;
+            }
+        }
+    }
+    // base: every (state, printer) on its own fresh OS thread (empty thread-local context)
+    let mut base: Vec<Vec<u8>> = vec![];
+    for d in 0..8u8 {
+        let st = states[(d / 4) as usize].clone();
+        base.push(std::thread::spawn(move || print_one(&st, d % 4)).join().unwrap_or_default());
+    }
+    // S: the whole sequence on ONE fresh thread
+    let seq = c.seq.clone();
+    let sts = states.clone();
+    let same: Vec<Vec<u8>> = std::thread::spawn(move || seq.iter().map(|d| print_one(&sts[(*d / 4) as usize], *d % 4)).collect())
+        .join()
+        .unwrap_or_default();
+    let cpu_of = |d: u8| if d / 4 == 0 { &c.a } else { &c.b };
+    for (i, d) in c.seq.iter().enumerate() {
+        if same.get(i) != Some(&base[*d as usize]) {
+            let prev: Vec<String> = c.seq[..i].iter().map(|p| format!("{}:{}", cpu_of(*p), WHICH[(*p % 4) as usize])).collect();
+            res.oracle.push((
+                "print-depends-on-thread-history".into(),
+                format!(
+                    "print #{i} ({} of the {} dump) on a thread that printed {:?} before differs from the same print on a fresh thread; {}",
+                    WHICH[(*d % 4) as usize],
+                    cpu_of(*d),
+                    prev,
+                    first_diff(&base[*d as usize], same.get(i).map(|v| v.as_slice()).unwrap_or(&[]))
+                ),
+            ));
+            break;
+        }
+    }
+    // T: one task per print on the multi-thread runtime (4 workers), three rounds; which worker a
+    // task lands on — and what that worker printed before — is up to the scheduler
+    let rt = tokio_rt();
+    'rounds: for round in 0..3u64 {
+        let outs: Vec<(u8, Vec<u8>)> = rt.block_on(async {
+            let mut hs = vec![];
+            for (i, d) in c.seq.iter().enumerate() {
+                let st = states[(*d / 4) as usize].clone();
+                let d = *d;
+                let yields = (c.rs.wrapping_add(round * 7 + i as u64 * 3) % 4) as usize;
+                hs.push(tokio::spawn(async move {
+                    for _ in 0..yields {
+                        tokio::task::yield_now().await;
+                    }
+                    (d, print_one(&st, d % 4))
+                }));
+            }
+            let mut outs = vec![];
+            for h in hs {
+                outs.push(h.await.unwrap_or((0, vec![])));
+            }
+            outs
+        });
+        for (i, (d, o)) in outs.iter().enumerate() {
+            if *o != base[*d as usize] {
+                res.oracle.push((
+                    "print-depends-on-runtime-worker".into(),
+                    format!(
+                        "round {round}, task #{i} ({} of the {} dump) on the multi-thread runtime differs from the same print on a fresh thread; {}",
+                        WHICH[(*d % 4) as usize],
+                        cpu_of(*d),
+                        first_diff(&base[*d as usize], o)
+                    ),
+                ));
+                break 'rounds;
+            }
+        }
+    }
+    // for the model: pointer width of every print of the same-thread sequence, and the number of
+    // characters of the crash address it showed
+    let width = |d: u8| match states[(d / 4) as usize].system_info.cpu.pointer_width() {
+        minidump::system_info::PointerWidth::Bits32 => 32,
+        minidump::system_info::PointerWidth::Bits64 => 64,
+        _ => 0,
+    };
+    let widths: Vec<String> = c.seq.iter().map(|d| width(*d).to_string()).collect();
+    let chars: Vec<String> = c
+        .seq
+        .iter()
+        .enumerate()
+        .map(|(i, d)| same.get(i).and_then(|o| crash_addr_chars(o, *d % 4)).map(|n| n.to_string()).unwrap_or("?".into()))
+        .collect();
+    res.out = format!("chars:{}", chars.join(","));
+    LAST.with(|l| *l.borrow_mut() = Some((render_mix(c), format!("det ctx widths:{}", widths.join(",")))));
+    let distinct_widths = width(0) != width(4);
+    let alternations = c.seq.windows(2).filter(|w| w[0] / 4 != w[1] / 4).count();
+    res.nontrivial = alternations >= 1;
+    res.tags.push("kind:mix".into());
+    res.tags.push(format!("mix-widths:{}", if distinct_widths { "32+64" } else { "same" }));
+    res.tags.push(format!("mix-alternations:{}", alternations.min(8)));
     res
 }
 
@@ -1628,11 +2286,13 @@ fn exec_run(c: &RunCase) -> ImplResult {
     // repeated runs, same schedule, same executor: fresh hash seeds (odd runs on a fresh OS thread,
     // whose `RandomState` keys are drawn afresh)
     for r in 1..c.runs {
+        // (every third repetition WITHOUT the pending-stats reporter: it must not change the reports)
+        let rep = r % 3 != 2;
         let o = if r % 2 == 1 {
-            std::thread::scope(|s| s.spawn(|| run_once(&bytes, c, &text, evil, &c.sched[0], 'B', c.rs, false)).join())
+            std::thread::scope(|s| s.spawn(|| run_once_r(&bytes, c, &text, evil, &c.sched[0], 'B', c.rs, false, rep)).join())
                 .unwrap_or_else(|_| RunOut { err: Some("panic".into()), ..Default::default() })
         } else {
-            run_once(&bytes, c, &text, evil, &c.sched[0], 'B', c.rs, false)
+            run_once_r(&bytes, c, &text, evil, &c.sched[0], 'B', c.rs, false, rep)
         };
         n_runs += 1;
         compare(c, &base, &o, "runs", &format!("run #{r} (executor B, base schedule)"), &mut res.oracle);
@@ -1655,9 +2315,9 @@ fn exec_run(c: &RunCase) -> ImplResult {
     }
     // when already two runs of the SAME schedule and executor differ, differences under other
     // schedules / executors say nothing about schedules / executors
-    for which in ["json", "text"] {
-        if res.oracle.iter().any(|(cl, _)| *cl == format!("{which}-differs-across-runs")) {
-            res.oracle.retain(|(cl, _)| *cl != format!("{which}-differs-across-schedules") && *cl != format!("{which}-differs-across-executors"));
+    for which in ["json-differs", "text-differs", "raw-dump-differs", "pending-stats-differ"] {
+        if res.oracle.iter().any(|(cl, _)| *cl == format!("{which}-across-runs")) {
+            res.oracle.retain(|(cl, _)| *cl != format!("{which}-across-schedules") && *cl != format!("{which}-across-executors"));
         }
     }
     // one report per class is enough
@@ -1685,6 +2345,10 @@ fn exec_run(c: &RunCase) -> ImplResult {
     res.tags.push(format!("threads:{}", if c.thr.len() > 30 { ">30".to_string() } else { ((c.thr.len() + 3) / 4 * 4).to_string() }));
     res.tags.push(format!("limits:{}", if c.lim_n == 0 { "none" } else if c.lim_n >= 8 { ">=8" } else { "<8" }));
     res.tags.push(format!("cfi-alias-flavour:{}", c.alias));
+    res.tags.push(format!("run-cpu:{}", c.cpu));
+    if cfi_frames > 0 {
+        res.tags.push(format!("has-cfi-frames:{}", c.cpu));
+    }
     res.tags.push(format!("distinct-completion-orders:{}", orders.len().min(6)));
     if cfi_frames > 0 {
         res.tags.push("has-cfi-frames".into());
@@ -1838,7 +2502,14 @@ fn gen_run(rng: &mut Rng, i: u64, tier: Tier) -> RunCase {
         } else if i % 4 == 3 {
             0
         } else {
-            1 + (rng.below(3) as u32)
+            *rng.pick(&[1u32, 1, 2, 3, 3, 5, 5])
+        },
+        cpu: if i % 8 == 7 {
+            "amd64".to_string()
+        } else {
+            // the CPUs whose unwinders evaluate STACK CFI get most cases; the ones with alias arms most of those
+            let rare = *rng.pick(&["ppc", "ppc64", "sparc", "mips64"]);
+            (*rng.pick(&["arm64", "arm64", "arm64", "arm", "arm", "arm", "arm", "x86", "x86", "mips", "arm64old", "amd64", rare])).to_string()
         },
         mods,
         thr,
@@ -1854,22 +2525,36 @@ fn gen_run(rng: &mut Rng, i: u64, tier: Tier) -> RunCase {
     }
 }
 
-const CFI_LABELS: &[&str] = &[
-    "x19", "x20", "x21", "x22", "x23", "x24", "x25", "x26", "x27", "x28", "x29", "fp", "x30", "lr", "sp", "pc", "x0",
-    "x7", "x18", "bogus", "x31", "x07", "X19", "r11", "fp2", "f",
-];
+/// labels the real `memoize_register` of `cpu` knows (canonical names and aliases)
+fn known_labels(cpu: &str) -> Vec<String> {
+    label_universe().iter().filter(|l| cfi_memoize(cpu, l).is_some()).cloned().collect()
+}
+
+fn cfi_value(rng: &mut Rng) -> Option<u64> {
+    match rng.below(16) {
+        0..=3 => None,
+        // does not fit a 32-bit register: the rule counts as failed there (F25)
+        4 => Some((1u64 << 32) + rng.below(0x1000)),
+        5 => Some(*rng.pick(&[0u64, 1, 0xffff_ffff, 0x1_0000_0000, 0xffff_ffff_ffff, 1 << 40])),
+        _ => Some(rng.below(0x8000)),
+    }
+}
 
 fn gen_cfi(rng: &mut Rng) -> CfiCase {
+    // the CPUs with alias arms get half of the cases
+    let cpu = if rng.chance(1, 2) { *rng.pick(&["ARM", "ARM", "ARM64", "ARM64_OLD", "SPARC"]) } else { *rng.pick(CFI_CPUS) };
     let n = rng.range(0, 8) as usize;
-    let mut labels: Vec<&str> = CFI_LABELS.to_vec();
-    let mut rules = vec![];
-    // aliased pairs in a fixed fraction
-    if rng.chance(1, 2) {
-        for pair in [["x29", "fp"], ["x30", "lr"]] {
-            if rng.chance(1, 2) {
-                for l in pair {
+    let mut labels: Vec<String> = if rng.chance(3, 4) { known_labels(cpu) } else { label_universe().clone() };
+    let mut rules: Vec<(String, Option<u64>)> = vec![];
+    // whole alias groups in a fixed fraction
+    let groups = alias_groups(cpu);
+    if !groups.is_empty() && rng.chance(2, 3) {
+        for _ in 0..rng.range(1, 3) {
+            let g = rng.pick(&groups).clone();
+            for l in g {
+                if rules.iter().all(|(x, _)| *x != l) {
                     labels.retain(|x| *x != l);
-                    rules.push((l.to_string(), if rng.chance(1, 4) { None } else { Some(rng.below(0x8000)) }));
+                    rules.push((l, cfi_value(rng)));
                 }
             }
         }
@@ -1879,14 +2564,15 @@ fn gen_cfi(rng: &mut Rng) -> CfiCase {
             break;
         }
         let l = labels.swap_remove(rng.below(labels.len() as u64) as usize);
-        rules.push((l.to_string(), if rng.chance(1, 4) { None } else { Some(rng.below(0x8000)) }));
+        rules.push((l, cfi_value(rng)));
     }
     for a in (1..rules.len()).rev() {
         let b = rng.below(a as u64 + 1) as usize;
         rules.swap(a, b);
     }
+    let nregs = cfi_registers(cpu).unwrap().len() as u32;
     let mut init = vec![];
-    let mut regs: Vec<u32> = vec![19, 20, 21, 22, 23, 28, 29, 30, 31];
+    let mut regs: Vec<u32> = (0..nregs).collect();
     for _ in 0..rng.below(5) {
         if regs.is_empty() {
             break;
@@ -1895,7 +2581,54 @@ fn gen_cfi(rng: &mut Rng) -> CfiCase {
         init.push((r, rng.below(1000), rng.chance(3, 4)));
     }
     init.sort();
-    CfiCase { init, rules, sh: rng.below(1 << 32) }
+    CfiCase { cpu: cpu.to_string(), init, rules, sh: rng.below(1 << 32) }
+}
+
+/// exhaustive part: for every CPU and every two of its alias groups (two spellings each), every rule
+/// map over the four labels with outcome {absent, 5, 6, evaluation fails} each
+fn exhaustive_cfi(emit: &mut dyn FnMut(String)) {
+    for cpu in CFI_CPUS {
+        let groups = alias_groups(cpu);
+        let nregs = cfi_registers(cpu).unwrap().len() as u32;
+        let id = |l: &str| cfi_registers(cpu).unwrap().iter().position(|r| Some(*r) == cfi_memoize(cpu, l)).unwrap() as u32;
+        let mut combos: Vec<(usize, usize)> = vec![];
+        if groups.len() <= 4 {
+            for a in 0..groups.len() {
+                for b in a + 1..groups.len() {
+                    combos.push((a, b));
+                }
+            }
+        } else {
+            // SPARC: 32 window names; neighbouring groups
+            for a in (0..groups.len() - 1).step_by(2) {
+                combos.push((a, a + 1));
+            }
+        }
+        for (ci, (a, b)) in combos.iter().enumerate() {
+            let four = [groups[*a][0].clone(), groups[*a][1].clone(), groups[*b][0].clone(), groups[*b][1].clone()];
+            let (ra, rb) = (id(&four[0]), id(&four[2]));
+            let inits: Vec<Vec<(u32, u64, bool)>> = if groups.len() <= 4 {
+                vec![vec![], vec![(ra, 7, true)], vec![(ra.min(rb), 7, false), (ra.max(rb), 9, true)]]
+            } else {
+                vec![vec![(ra.min(rb), 7, false), (ra.max(rb), 9, true)]]
+            };
+            debug_assert!(ra < nregs && rb < nregs);
+            for code in 0..256u32 {
+                for init in &inits {
+                    let mut rules = vec![];
+                    for (k, l) in four.iter().enumerate() {
+                        match (code >> (2 * k)) & 3 {
+                            0 => {}
+                            1 => rules.push((l.to_string(), Some(5))),
+                            2 => rules.push((l.to_string(), Some(6))),
+                            _ => rules.push((l.to_string(), None)),
+                        }
+                    }
+                    emit(render_cfi(&CfiCase { cpu: cpu.to_string(), init: init.clone(), rules, sh: (code as u64) * 131 + ci as u64 }));
+                }
+            }
+        }
+    }
 }
 
 impl Engine for Det {
@@ -1903,11 +2636,11 @@ impl Engine for Det {
         "det"
     }
     fn rule(&self) -> String {
-        "kind run: a generated ARM64/Linux (dump, symbols) pair (minidump-synth: 2-8 modules incl. same-leaf paths in 1/3 of the pairs — half of them with different symbol outcomes —, 2-6 threads (31+ in 1/40) walking 2-6 frames through the shared modules by STACK CFI with aliased labels fp:/x29: in 3/4, a /proc/limits stream with 8-18 limits in 9/10, optional exception stream, three option sets) processed runs x schedules x executors times in-process (fresh Symbolizer and hash seeds each; executors B poll-to-completion, R randomised releases + spurious polls, T multi-thread tokio with suspensions in spawned tasks); the four report byte strings of every run are compared with the base run; the model request is built from the REAL iteration orders / completion order of the base run. kind cfi: walk_with_stack_cfi called directly on generated rule maps (0-12 labels incl. aliases fp/x29, lr/x30, unknown names, failing rules, shadowed delta rules) with a twin of CfiStackWalker on the real CONTEXT_ARM64. non-trivial = (run) >= 4 runs compared and some thread was unwound beyond its context frame, (cfi) >= 2 rules; distinct = distinct case line".into()
+        "kind run: a generated Linux (dump, symbols) pair for one of ten CPU flavours (arm64, amd64, arm, x86, mips, arm64old CFI-walked; ppc, ppc64, sparc, mips64 context-only) (minidump-synth: 2-8 modules incl. same-leaf paths in 1/3 of the pairs — half of them with different symbol outcomes —, 2-6 threads (31+ in 1/40) walking 2-6 frames through the shared modules by STACK CFI records that name every alias pair of the CPU under both spellings / $-prefixed duplicates / .undef / overriding delta records in 3/4, a /proc/limits stream with 8-18 limits in 9/10, Crashpad annotations, memory maps, optional exception stream, three option sets) processed runs x schedules x executors times in-process (fresh Symbolizer and hash seeds each, with and without a pending-stats reporter; executors B poll-to-completion, R randomised releases + spurious polls, T multi-thread tokio with suspensions in spawned tasks); the four report byte strings, the reporter summary and the raw stream dump of every run are compared with the base run; the model request is built from the REAL iteration orders / completion order of the base run. kind cfi: walk_with_stack_cfi called directly on generated rule maps (0-12 labels from a ~400-name universe incl. every alias group found by probing memoize_register, unknown names, failing rules, values over 32 bits, shadowed and $-prefixed duplicates in INIT and delta records) with a generic twin of CfiStackWalker on each of the nine real context types. kind mix: two dumps (different pointer widths in 9/10) printed alternately on one thread and as tasks of the 4-worker runtime vs fresh-thread prints. non-trivial = (run) >= 4 runs compared and some thread was unwound beyond its context frame, (cfi) >= 2 rules, (mix) the sequence alternates between the two dumps; distinct = distinct case line".into()
     }
 
     fn exhaustive_part(&self) -> Option<String> {
-        Some("kind cfi: all 256 rule maps over the aliased labels {fp, x29, lr, x30} with outcome {absent, 5, 6, evaluation fails} each, x 3 initial caller states, each map called 8 times (fresh HashMap, 3 renderings) and compared with walkRest arm64".into())
+        Some("kind cfi: for every one of the nine CPU context types and every two of its alias groups (ARM: r11/fp r13/sp r14/lr r15/pc; ARM64, ARM64_OLD: x29/fp x30/lr; SPARC: neighbouring window-name pairs), all 256 rule maps over the four labels with outcome {absent, 5, 6, evaluation fails} each, x 3 initial caller states (SPARC: 1), each map called 8 times (fresh HashMap, 3 renderings) and compared with walkRest (cpu c)".into())
     }
 
     fn generate(&self, tier: Tier, rng: &mut Rng, emit: &mut dyn FnMut(String)) {
@@ -1917,24 +2650,27 @@ impl Engine for Det {
         for i in 0..n_run {
             emit(render_run(&gen_run(rng, i, tier)));
         }
-        // exhaustive: every rule map over the aliased labels fp/x29/lr/x30 with outcomes
-        // {absent, 5, 6, fails} x three initial caller states
-        for code in 0..256u32 {
-            for init in [vec![], vec![(29u32, 7u64, true)], vec![(29, 7, false), (30, 9, true)]] {
-                let mut rules = vec![];
-                for (k, l) in ["fp", "x29", "lr", "x30"].iter().enumerate() {
-                    match (code >> (2 * k)) & 3 {
-                        0 => {}
-                        1 => rules.push((l.to_string(), Some(5))),
-                        2 => rules.push((l.to_string(), Some(6))),
-                        _ => rules.push((l.to_string(), None)),
-                    }
-                }
-                emit(render_cfi(&CfiCase { init, rules, sh: code as u64 }));
-            }
-        }
+        exhaustive_cfi(emit);
         for _ in 0..n_cfi {
             emit(render_cfi(&gen_cfi(rng)));
+        }
+        // different dumps printed alternately on one thread and on the multi-thread runtime
+        let n_mix = if quick { 150 } else { 3000 };
+        for i in 0..n_mix {
+            let (a, b) = match i % 5 {
+                // different pointer widths in 4/5
+                0 => ("amd64", "x86"),
+                1 => ("arm", "arm64"),
+                2 => (*rng.pick(&["x86", "arm", "mips", "ppc", "sparc"]), *rng.pick(&["amd64", "arm64", "arm64old", "ppc64"])),
+                3 => (*rng.pick(&["amd64", "arm64", "ppc64", "mips64"]), *rng.pick(&["x86", "arm", "mips", "sparc"])),
+                _ => (*rng.pick(RUN_CPUS), *rng.pick(RUN_CPUS)),
+            };
+            let n = rng.range(2, 12) as usize;
+            let mut seq: Vec<u8> = (0..n).map(|_| rng.below(8) as u8).collect();
+            // make sure both states occur
+            seq[0] = rng.below(4) as u8;
+            seq[1] = 4 + rng.below(4) as u8;
+            emit(render_mix(&MixCase { a: a.to_string(), b: b.to_string(), seq, rs: rng.below(1 << 32) }));
         }
         // the repository's own dumps and symbols (x86 Windows with STACK WIN, Linux, macOS with inlines)
         let n_file = if quick { 60 } else { 1500 };
@@ -1961,6 +2697,14 @@ impl Engine for Det {
         match parse_case(case) {
             None => ImplResult { out: "bad-op".into(), ..Default::default() },
             Some(Case::Cfi(c)) => exec_cfi(&c),
+            Some(Case::Mix(c)) => match catch(|| exec_mix(&c)) {
+                Ok(r) => r,
+                Err(msg) => ImplResult {
+                    out: "PANIC".into(),
+                    oracle: vec![("panic".into(), msg)],
+                    ..Default::default()
+                },
+            },
             Some(Case::File(c)) => match catch(|| exec_file(&c)) {
                 Ok(r) => r,
                 Err(msg) => ImplResult {
@@ -1991,6 +2735,13 @@ impl Engine for Det {
                 let r = render_cfi(&c);
                 Some(r.rsplit_once(" sh:").map(|(a, _)| a.to_string()).unwrap_or(r))
             }
+            Some(Case::Mix(c)) => {
+                let key = render_mix(&c);
+                LAST.with(|l| match &*l.borrow() {
+                    Some((k, req)) if *k == key => Some(req.clone()),
+                    _ => None,
+                })
+            }
             Some(Case::Run(c)) => {
                 let key = render_run(&c);
                 LAST.with(|l| match &*l.borrow() {
@@ -2005,6 +2756,21 @@ impl Engine for Det {
         match parse_case(case) {
             Some(Case::Run(c)) => shrink_run(c, still_fails),
             Some(Case::Cfi(c)) => shrink_cfi(c, still_fails),
+            Some(Case::Mix(mut c)) => {
+                // shorter sequences (a flaky, scheduler-dependent failure gets several chances)
+                let mut i = 0;
+                while c.seq.len() > 1 && i < c.seq.len() {
+                    let mut d = c.clone();
+                    d.seq.remove(i);
+                    let s = render_mix(&d);
+                    if (0..3).any(|_| still_fails(&s)) {
+                        c = d;
+                    } else {
+                        i += 1;
+                    }
+                }
+                render_mix(&c)
+            }
             Some(Case::File(mut c)) => {
                 for x in ['T', 'R'] {
                     if c.execs.contains(x) {
